@@ -12,17 +12,26 @@ Local Open Scope N_scope.
 Definition width (v : N) : N := if v =? 0 then 1 else N.sqrt v.
 Definition width_z (z : Z) : N := if (z <=? 0)%Z then 1 else N.sqrt (Z.to_N z).
 
-Definition row (v i : N) : N := i / width v.
-Definition col (v i : N) : N := i mod width v.
-
-(* grid.go IsNeighborInEpoch for a current set of v validators *)
-Definition neighbor (v a b : N) : bool :=
-  (a <? v) && (b <? v) && negb (a =? b) && ((row v a =? row v b) || (col v a =? col v b)).
+(* grid.go IsNeighborInEpoch for a current set of v validators (w = the width, computed once) *)
+Definition neighbor_w (w v a b : N) : bool :=
+  (a <? v) && (b <? v) && negb (a =? b) && ((a / w =? b / w) || (a mod w =? b mod w)).
+Definition neighbor (v a b : N) : bool := neighbor_w (width v) v a b.
 
 Definition idx_seq (n : N) : list N := map N.of_nat (seq 0 (N.to_nat n)).
 
 (* grid.go NeighborIndicesInEpoch : ascending indices of the in-epoch neighbours *)
-Definition neighbor_indices (v a : N) : list N := filter (neighbor v a) (idx_seq v).
+Definition neighbor_indices (v a : N) : list N :=
+  let w := width v in filter (neighbor_w w v a) (idx_seq v).
+
+(* Go int front-end: a negative index is not a validator *)
+Definition neighbor_z (v : N) (a b : Z) : bool :=
+  if ((a <? 0) || (b <? 0))%Z then false else neighbor v (Z.to_N a) (Z.to_N b).
+Definition neighbor_indices_z (v : N) (a : Z) : list N :=
+  if (a <? 0)%Z then [] else neighbor_indices v (Z.to_N a).
+(* IsNeighborInEpoch(a, b) for b = -1, 0, ..., v *)
+Definition neighbor_row_z (v : N) (a : Z) : list bool :=
+  if (a <? 0)%Z then repeat false (N.to_nat v + 2)
+  else let w := width v in false :: map (neighbor_w w v (Z.to_N a)) (idx_seq v) ++ [false].
 
 (* the three validator sets known to a node; K is the key type *)
 Section Sets.
@@ -68,6 +77,19 @@ Section Sets.
     | None => same_index_cross g self k
     end.
 End Sets.
+
+Section SetsZ.
+  Context {K : Type}.
+  Variable keq : K -> K -> bool.
+  Definition all_neighbors_z (g : @grid K) (i : Z) : list K :=
+    if (i <? 0)%Z then [] else all_neighbors g (Z.to_N i).
+  Definition same_index_cross_z (g : @grid K) (i : Z) (k : K) : bool :=
+    if (i <? 0)%Z then false else same_index_cross keq g (Z.to_N i) k.
+  Definition is_neighbor_key_z (g : @grid K) (i : Z) (k : K) : bool :=
+    if (i <? 0)%Z then false else is_neighbor_key keq g (Z.to_N i) k.
+  Definition is_neighbor_first_only_z (g : @grid K) (i : Z) (k : K) : bool :=
+    if (i <? 0)%Z then false else is_neighbor_first_only keq g (Z.to_N i) k.
+End SetsZ.
 
 (* nodes of the three-epoch graph: (epoch, index) with epoch 0 = previous, 1 = current, 2 = next *)
 Definition node_linked (v : N) (x y : N * N) : bool :=
